@@ -403,10 +403,18 @@ SAMPLE_INDICES = (0, 1, 2)
 CHUNK = 100
 
 
-def run_one(mod, verif_seed, index, agg):
+def make_spec(mod, verif_seed, index):
+    """The spec of run `index`: a pure function of (property, VERIF_SEED, index). Modules that enumerate a
+    systematic family provide generate_indexed(index, rng) instead of generate(rng)."""
     rng = rng_for(mod.PROP, verif_seed, index)
-    spec = mod.generate(rng)
-    spec["seed"] = run_seed(mod.PROP, verif_seed, index)
+    gi = getattr(mod, "generate_indexed", None)
+    spec = gi(index, rng) if gi is not None else mod.generate(rng)
+    spec["seed"] = run_seed(getattr(mod, "SEED_NAMESPACE", mod.PROP), verif_seed, index)
+    return spec
+
+
+def run_one(mod, verif_seed, index, agg):
+    spec = make_spec(mod, verif_seed, index)
     try:
         res = execute_guarded(mod, spec, keep_log=0)
     except InvalidSpec as e:
